@@ -353,4 +353,484 @@ theorem substring_spec (s : FS) (hs : s.wf) (a : Nat) (e : Option Nat)
           exact ⟨_, rfl, Or.inr rfl, rfl⟩
 
 
+theorem charStartsFrom_append (o : Nat) (a b : List Char) :
+    charStartsFrom o (a ++ b) = charStartsFrom o a ++ charStartsFrom (o + byteLen a) b := by
+  induction a generalizing o with
+  | nil => simp [charStartsFrom, byteLen]
+  | cons c cs ih => simp only [List.cons_append, charStartsFrom, ih, byteLen, List.cons.injEq, true_and]; congr 2; omega
+
+theorem map_add_charStartsFrom (o k : Nat) (cs : List Char) :
+    (charStartsFrom o cs).map (· + k) = charStartsFrom (o + k) cs := by
+  induction cs generalizing o with
+  | nil => rfl
+  | cons c cs ih =>
+    have : o + c.utf8Size + k = o + k + c.utf8Size := by omega
+    simp only [charStartsFrom, List.map_cons, ih, this]
+
+theorem range_succ_map (n _o : Nat) : List.range (n + 1) = 0 :: (List.range n).map (· + 1) := by
+  rw [List.range_succ_eq_map]
+
+theorem charStartsFrom_ascii (o : Nat) (cs : List Char) (h : ∀ c ∈ cs, c.utf8Size = 1) :
+    charStartsFrom o cs = (List.range cs.length).map (· + o) := by
+  induction cs generalizing o with
+  | nil => rfl
+  | cons c cs ih =>
+    rw [List.length_cons, range_succ_map _ 0]
+    simp only [charStartsFrom, List.map_cons, List.map_map, Nat.zero_add]
+    rw [ih _ (fun d hd => h d (by simp [hd])), h c (by simp)]
+    congr 1
+    apply List.map_congr_left
+    intro x _; simp; omega
+
+/-- the table the operations effectively work with -/
+def FS.effTable (s : FS) : List Nat := if s.starts.isEmpty then List.range (byteLen s.buf) else s.starts
+
+theorem effTable_wf (s : FS) (hs : s.wf) : s.effTable = charStartsFrom 0 s.buf := by
+  unfold FS.effTable
+  rcases hs with ⟨h1, h2⟩ | h
+  · simp only [h1, List.isEmpty_nil, if_true]
+    rw [charStartsFrom_ascii 0 _ h2, byteLen_ascii h2]; simp
+  · split
+    · rename_i he
+      have : s.buf = [] := by rw [h] at he; simpa [charStartsFrom_eq_nil] using he
+      simp [this, byteLen, charStartsFrom]
+    · exact h
+
+theorem wf_ascii_of_nil (s : FS) (hs : s.wf) (h : s.starts = []) : ∀ c ∈ s.buf, c.utf8Size = 1 := by
+  rcases hs with ⟨_, h2⟩ | h'
+  · exact h2
+  · have : s.buf = [] := by rw [h] at h'; exact charStartsFrom_eq_nil.mp h'.symm
+    simp [this]
+
+/-- concatenation keeps the invariant and concatenates the code points -/
+theorem push_spec (s o : FS) (hs : s.wf) (ho : o.wf) : (s.push o).wf ∧ (s.push o).buf = s.buf ++ o.buf := by
+  unfold FS.push
+  by_cases hb : (s.starts.isEmpty && o.starts.isEmpty) = true
+  · simp only [hb, if_true]
+    simp only [Bool.and_eq_true, List.isEmpty_iff] at hb
+    refine ⟨Or.inl ⟨rfl, ?_⟩, by first | rfl | trivial⟩
+    intro c hc
+    rcases List.mem_append.mp hc with hc | hc
+    · exact wf_ascii_of_nil s hs hb.1 c hc
+    · exact wf_ascii_of_nil o ho hb.2 c hc
+  · simp only [hb]
+    have e1 := effTable_wf s hs
+    have e2 := effTable_wf o ho
+    unfold FS.effTable at e1 e2
+    have ext : (if o.starts.isEmpty = true then (List.range (byteLen o.buf)).map (· + byteLen s.buf)
+        else o.starts.map (· + byteLen s.buf)) = charStartsFrom (byteLen s.buf) o.buf := by
+      have : (if o.starts.isEmpty = true then (List.range (byteLen o.buf)).map (· + byteLen s.buf)
+        else o.starts.map (· + byteLen s.buf)) = (if o.starts.isEmpty = true then List.range (byteLen o.buf) else o.starts).map (· + byteLen s.buf) := by
+        split <;> rfl
+      rw [this, e2, map_add_charStartsFrom]; simp
+    simp only [Bool.false_eq_true, if_false]
+    rw [ext]
+    split
+    · rename_i he
+      rw [if_pos he] at e1
+      refine ⟨Or.inr ?_, rfl⟩
+      simp only
+      rw [e1, charStartsFrom_append]; simp
+    · rename_i he
+      rw [if_neg he] at e1
+      refine ⟨Or.inr ?_, rfl⟩
+      simp only
+      rw [e1, charStartsFrom_append]; simp
+
+/-- `push_ascii` with an ASCII argument -/
+theorem pushAscii_spec (s : FS) (t : List Char) (hs : s.wf) (ht : ∀ c ∈ t, c.utf8Size = 1) :
+    (s.pushAscii t).wf ∧ (s.pushAscii t).buf = s.buf ++ t := by
+  unfold FS.pushAscii
+  split
+  · rename_i he
+    refine ⟨Or.inl ⟨rfl, ?_⟩, by first | rfl | trivial⟩
+    intro c hc
+    rcases List.mem_append.mp hc with hc | hc
+    · exact wf_ascii_of_nil s hs (List.isEmpty_iff.mp he) c hc
+    · exact ht c hc
+  · rename_i he
+    have e1 := effTable_wf s hs
+    unfold FS.effTable at e1
+    rw [if_neg he] at e1
+    refine ⟨Or.inr ?_, rfl⟩
+    simp only
+    rw [e1, charStartsFrom_append, charStartsFrom_ascii _ _ ht, byteLen_ascii ht]; simp
+
+theorem substr_of_substring (s : FS) (a : Nat) (e : Option Nat) (r : FS) (h : s.substring a e = .ok r) :
+    s.substr a e = .ok r.buf := by
+  unfold FS.substring at h
+  unfold FS.substr
+  split at h
+  · rename_i he
+    rw [if_pos he]
+    cases hx : asciiSub s a e <;> rw [hx] at h <;> simp [Res.bind] at h
+    subst h; rfl
+  · rename_i he
+    rw [if_neg he]
+    cases hx : startByte s a <;> rw [hx] at h <;> simp only [Res.bind] at h ⊢ <;> try cases h
+    split at h
+    · rename_i eb heb
+      cases hy : optSlice (slice s.buf _ eb) "byte slice" <;> rw [hy] at h <;> simp only [Res.bind] at h <;> try cases h
+      cases hz : vecSlice s.starts a (e.getD 0) <;> rw [hz] at h <;> simp only [Res.bind] at h <;> try cases h
+      rename_i v1 v2
+      cases hw : rebase _ v2 <;> rw [hw] at h <;> simp only [Res.bind] at h <;> try cases h
+      rfl
+    · rename_i heb
+      cases hy : optSlice (sliceFrom s.buf _) "byte slice" <;> rw [hy] at h <;> simp only [Res.bind] at h <;> try cases h
+      cases hz : vecSlice s.starts a s.starts.length <;> rw [hz] at h <;> simp only [Res.bind] at h <;> try cases h
+      rename_i v1 v2
+      cases hw : rebase _ v2 <;> rw [hw] at h <;> simp only [Res.bind] at h <;> try cases h
+      rfl
+
+
+/-- `n` occurs in `cs` at character index `i` -/
+def occAt (n cs : List Char) (i : Nat) : Prop := n.isPrefixOf (cs.drop i) = true
+
+theorem strFind_spec (hay n : List Char) :
+    match strFind hay n with
+    | some b => ∃ i, i ≤ hay.length ∧ b = byteLen (hay.take i) ∧ occAt n hay i ∧ ∀ j, j < i → ¬ occAt n hay j
+    | none => ∀ j, j ≤ hay.length → ¬ occAt n hay j := by
+  induction hay with
+  | nil =>
+    unfold strFind
+    split
+    · rename_i b hb
+      split at hb
+      · rename_i hn
+        cases hb
+        refine ⟨0, by simp, by simp [byteLen], ?_, by simp⟩
+        simp only [List.isEmpty_iff] at hn
+        simp [occAt, hn]
+      · cases hb
+    · rename_i hb
+      split at hb
+      · cases hb
+      · rename_i hn
+        intro j _
+        simp only [List.isEmpty_iff] at hn
+        cases n with
+        | nil => exact absurd rfl hn
+        | cons a as => simp [occAt, List.isPrefixOf]
+  | cons c cs ih =>
+    unfold strFind
+    by_cases hp : n.isPrefixOf (c :: cs) = true
+    · rw [if_pos hp]
+      exact ⟨0, by simp, by simp [byteLen], by simpa [occAt] using hp, by simp⟩
+    · rw [if_neg hp]
+      cases hr : strFind cs n with
+      | some b =>
+        rw [hr] at ih
+        obtain ⟨i, hi, hb, ho, hmin⟩ := ih
+        simp only [Option.map_some]
+        refine ⟨i + 1, by simpa using hi, by simp [byteLen, hb]; omega, by simpa [occAt] using ho, ?_⟩
+        intro j hj
+        cases j with
+        | zero => simpa [occAt] using hp
+        | succ j => simpa [occAt] using hmin j (by omega)
+      | none =>
+        rw [hr] at ih
+        simp only [Option.map_none]
+        intro j hj
+        cases j with
+        | zero => simpa [occAt] using hp
+        | succ j => simpa [occAt] using ih j (by simpa using hj)
+
+theorem strRFind_spec (hay n : List Char) :
+    match strRFind hay n with
+    | some b => ∃ i, i ≤ hay.length ∧ b = byteLen (hay.take i) ∧ occAt n hay i ∧ ∀ j, i < j → j ≤ hay.length → ¬ occAt n hay j
+    | none => ∀ j, j ≤ hay.length → ¬ occAt n hay j := by
+  induction hay with
+  | nil =>
+    unfold strRFind
+    split
+    · rename_i b hb
+      split at hb
+      · rename_i hn
+        cases hb
+        refine ⟨0, by simp, by simp [byteLen], ?_, by intro j h1 h2; simp at h2; omega⟩
+        simp only [List.isEmpty_iff] at hn
+        simp [occAt, hn]
+      · cases hb
+    · rename_i hb
+      split at hb
+      · cases hb
+      · rename_i hn
+        intro j _
+        simp only [List.isEmpty_iff] at hn
+        cases n with
+        | nil => exact absurd rfl hn
+        | cons a as => simp [occAt, List.isPrefixOf]
+  | cons c cs ih =>
+    unfold strRFind
+    cases hr : strRFind cs n with
+    | some b =>
+      rw [hr] at ih
+      obtain ⟨i, hi, hb, ho, hmax⟩ := ih
+      simp only
+      refine ⟨i + 1, by simpa using hi, by simp [byteLen, hb]; omega, by simpa [occAt] using ho, ?_⟩
+      intro j hj hjl
+      cases j with
+      | zero => omega
+      | succ j => simpa [occAt] using hmax j (by omega) (by simpa using hjl)
+    | none =>
+      rw [hr] at ih
+      simp only
+      by_cases hp : n.isPrefixOf (c :: cs) = true
+      · rw [if_pos hp]
+        refine ⟨0, by simp, by simp [byteLen], by simpa [occAt] using hp, ?_⟩
+        intro j hj hjl
+        cases j with
+        | zero => omega
+        | succ j => simpa [occAt] using ih j (by simpa using hjl)
+      · rw [if_neg hp]
+        intro j hj
+        cases j with
+        | zero => simpa [occAt] using hp
+        | succ j => simpa [occAt] using ih j (by simpa using hj)
+
+theorem slice_zero_take (cs : List Char) (i : Nat) (_h : i ≤ cs.length) :
+    slice cs 0 (byteLen (cs.take i)) = some (cs.take i) := by
+  have := slice_take cs 0 i (Nat.zero_le _) (Nat.zero_le _)
+  simpa [byteLen] using this
+
+
+theorem substr_spec (s : FS) (hs : s.wf) (a : Nat) (e : Option Nat)
+    (ha : a ≤ s.buf.length) (hae : ∀ b, e = some b → a ≤ b) :
+    s.substr a e = .ok (match e with
+        | some b => (s.buf.drop a).take (b - a)
+        | none => s.buf.drop a) := by
+  obtain ⟨r, h1, _, h3⟩ := substring_spec s hs a e ha hae
+  rw [substr_of_substring s a e r h1]
+  cases e <;> simp only at h3 ⊢ <;> rw [h3]
+
+theorem toUsize_ofNat (n : Nat) (h : n < usizeLimit) : toUsize (n : Int) = some n := by
+  unfold toUsize
+  rw [if_neg (by omega), if_pos (by simpa using h)]; simp
+
+theorem toUsize_some {v : Int} {n : Nat} (h : toUsize v = some n) : v = n ∧ n < usizeLimit := by
+  unfold toUsize at h
+  split at h
+  · cases h
+  · split at h
+    · cases h; constructor <;> omega
+    · cases h
+
+/-- indexing: every in-range index (negative ones count from the end) yields that code point -/
+theorem get_spec (s : FS) (hs : s.wf) (i : Int) (hlen : s.buf.length < usizeLimit)
+    (hlo : -(s.buf.length : Int) ≤ i) (hhi : i < s.buf.length) :
+    ∃ r, get s i = .ok r ∧ r.wf ∧
+      r.buf = (s.buf.drop (if i < 0 then i + s.buf.length else i).toNat).take 1 := by
+  have hl := len_chars s hs
+  unfold get
+  rw [hl]
+  generalize hk : (if i < 0 then i + (s.buf.length : Int) else i) = k
+  have hk0 : 0 ≤ k ∧ k < s.buf.length := by subst hk; split <;> omega
+  obtain ⟨n, rfl⟩ : ∃ n : Nat, k = n := ⟨k.toNat, by omega⟩
+  simp only [toUsize_ofNat n (by omega)]
+  rw [if_neg (by omega)]
+  obtain ⟨r, h1, h2, h3⟩ := substring_spec s hs n (some (n + 1)) (by omega) (by intro b hb; cases hb; omega)
+  refine ⟨r, h1, h2, ?_⟩
+  simp only at h3
+  rw [h3]; simp
+
+/-- an out-of-range index is an error value -/
+theorem get_out_of_range (s : FS) (hs : s.wf) (i : Int)
+    (h : i < -(s.buf.length : Int) ∨ (s.buf.length : Int) ≤ i) : ∃ m, get s i = .err m := by
+  have hl := len_chars s hs
+  unfold get
+  rw [hl]
+  generalize hk : (if i < 0 then i + (s.buf.length : Int) else i) = k
+  have hk0 : k < 0 ∨ (s.buf.length : Int) ≤ k := by subst hk; split <;> omega
+  cases hu : toUsize k with
+  | none => exact ⟨"index too large", by simp only [hu]⟩
+  | some n =>
+    obtain ⟨rfl, _⟩ := toUsize_some hu
+    simp only [hu]
+    rw [if_pos (by omega)]
+    exact ⟨_, rfl⟩
+
+theorem occAt_drop (n cs : List Char) (a i : Nat) : occAt n (cs.drop a) i ↔ occAt n cs (a + i) := by
+  simp [occAt, List.drop_drop]
+
+set_option maxRecDepth 4000 in
+/-- `find`: the answer is the least character index `≥ start` at which the needle occurs -/
+theorem find_spec (s n : FS) (hs : s.wf) (hn : n.buf ≠ []) (st : Nat) (hst : st ≤ s.buf.length)
+    (h64 : st < usizeLimit) :
+    (∃ i, find s n (some st) = .ok (some i) ∧ st ≤ i ∧ occAt n.buf s.buf i ∧
+        ∀ j, st ≤ j → j < i → ¬ occAt n.buf s.buf j) ∨
+    (find s n (some st) = .ok none ∧ ∀ j, st ≤ j → j ≤ s.buf.length → ¬ occAt n.buf s.buf j) := by
+  have hl := len_chars s hs
+  have hne : n.buf.isEmpty = false := by cases h : n.buf <;> simp_all
+  have hfind : find s n (some st) = findFrom s n st := by
+    unfold find
+    rw [hne]; simp only [Bool.false_eq_true, if_false]; rw [toUsize_ofNat st h64]
+  rw [hfind]
+  unfold findFrom
+  rw [hl, if_neg (by omega)]
+  rw [substr_spec s hs st none hst (by intro b hb; cases hb)]
+  simp only [Res.bind]
+  have := strFind_spec (s.buf.drop st) n.buf
+  cases hf : strFind (s.buf.drop st) n.buf with
+  | some b =>
+    rw [hf] at this
+    obtain ⟨i, hi, hb, ho, hmin⟩ := this
+    left
+    simp only
+    rw [hb, slice_zero_take _ _ hi]
+    simp only [optSlice, Res.bind]
+    refine ⟨(List.take i (List.drop st s.buf)).length + st, rfl, by omega, ?_, ?_⟩
+    · rw [List.length_take, Nat.min_eq_left hi, Nat.add_comm]; exact (occAt_drop _ _ _ _).mp ho
+    · intro j hj1 hj2
+      rw [List.length_take, Nat.min_eq_left hi] at hj2
+      have := hmin (j - st) (by omega)
+      rw [occAt_drop] at this
+      have e : st + (j - st) = j := by omega
+      rwa [e] at this
+  | none =>
+    rw [hf] at this
+    right
+    refine ⟨rfl, ?_⟩
+    intro j hj1 hj2
+    have := this (j - st) (by simp; omega)
+    rw [occAt_drop] at this
+    have e : st + (j - st) = j := by omega
+    rwa [e] at this
+
+set_option maxRecDepth 4000 in
+/-- `rfind`: the answer is the greatest character index at which the needle occurs inside the first `e`
+characters (`e` clipped to the length) -/
+theorem rfind_spec (s n : FS) (hs : s.wf) (hn : n.buf ≠ []) (e : Nat) (h64 : e < usizeLimit) :
+    (∃ i, rfind s n (some e) = .ok (some i) ∧ occAt n.buf (s.buf.take e) i ∧
+        ∀ j, i < j → j ≤ (s.buf.take e).length → ¬ occAt n.buf (s.buf.take e) j) ∨
+    (rfind s n (some e) = .ok none ∧ ∀ j, j ≤ (s.buf.take e).length → ¬ occAt n.buf (s.buf.take e) j) := by
+  have hne : n.buf.isEmpty = false := by cases h : n.buf <;> simp_all
+  have hfind : rfind s n (some e) = rfindTo s n (some e) := by
+    unfold rfind
+    rw [hne]; simp only [Bool.false_eq_true, if_false]; rw [toUsize_ofNat e h64]; rfl
+  rw [hfind]
+  unfold rfindTo
+  rw [substr_spec s hs 0 (some e) (Nat.zero_le _) (by intro b hb; omega)]
+  simp only [Res.bind, List.drop_zero, Nat.sub_zero]
+  have := strRFind_spec (s.buf.take e) n.buf
+  cases hf : strRFind (s.buf.take e) n.buf with
+  | some b =>
+    rw [hf] at this
+    obtain ⟨i, hi, hb, ho, hmax⟩ := this
+    left
+    simp only
+    rw [hb, slice_zero_take _ _ hi]
+    simp only [optSlice, Res.bind]
+    refine ⟨_, rfl, ?_, ?_⟩
+    · rw [List.length_take, Nat.min_eq_left hi]; exact ho
+    · intro j hj1 hj2
+      rw [List.length_take, Nat.min_eq_left hi] at hj1
+      exact hmax j hj1 hj2
+  | none =>
+    rw [hf] at this
+    right
+    exact ⟨rfl, this⟩
+
+
+def Res.isPanic {α} : Res α → Prop
+  | .panic _ => True
+  | _ => False
+
+theorem findFrom_ok (s n : FS) (hs : s.wf) (st : Nat) (hst : st ≤ s.buf.length) :
+    ∃ r, findFrom s n st = .ok r := by
+  have hl := len_chars s hs
+  unfold findFrom
+  rw [hl, if_neg (by omega), substr_spec s hs st none hst (by intro b hb; cases hb)]
+  simp only [Res.bind]
+  have := strFind_spec (s.buf.drop st) n.buf
+  cases hf : strFind (s.buf.drop st) n.buf with
+  | none => exact ⟨none, rfl⟩
+  | some b =>
+    rw [hf] at this
+    obtain ⟨i, hi, hb, _, _⟩ := this
+    simp only
+    rw [hb, slice_zero_take _ _ hi]
+    exact ⟨_, rfl⟩
+
+theorem rfindTo_ok (s n : FS) (hs : s.wf) (e : Option Nat) : ∃ r, rfindTo s n e = .ok r := by
+  unfold rfindTo
+  have key : ∀ hay : List Char, ∃ r, (match strRFind hay n.buf with
+      | none => (Res.ok none : Res (Option Nat))
+      | some b => (FS.optSlice (slice hay 0 b) "byte slice").bind fun pre => .ok (some pre.length)) = .ok r := by
+    intro hay
+    have := strRFind_spec hay n.buf
+    cases hf : strRFind hay n.buf with
+    | none => exact ⟨none, rfl⟩
+    | some b =>
+      rw [hf] at this
+      obtain ⟨i, hi, hb, _, _⟩ := this
+      simp only
+      rw [hb, slice_zero_take _ _ hi]
+      exact ⟨_, rfl⟩
+  cases e with
+  | none =>
+    rw [substr_spec s hs 0 none (Nat.zero_le _) (by intro b hb; cases hb)]
+    exact key _
+  | some e =>
+    rw [substr_spec s hs 0 (some e) (Nat.zero_le _) (by intro b hb; omega)]
+    exact key _
+
+theorem get_no_panic (s : FS) (hs : s.wf) (i : Int) : ¬ (get s i).isPanic := by
+  have hl := len_chars s hs
+  unfold get
+  rw [hl]
+  generalize (if i < 0 then i + (s.buf.length : Int) else i) = k
+  cases hu : toUsize k with
+  | none => simp only [hu]; simp [Res.isPanic]
+  | some n =>
+    simp only [hu]
+    by_cases hlt : n ≥ s.buf.length
+    · rw [if_pos hlt]; simp [Res.isPanic]
+    · rw [if_neg hlt]
+      obtain ⟨r, h1, _, _⟩ := substring_spec s hs n (some (n + 1)) (by omega) (by intro b hb; cases hb; omega)
+      rw [h1]; simp [Res.isPanic]
+
+theorem find_no_panic (s n : FS) (hs : s.wf) (st : Option Int) : ¬ (find s n st).isPanic := by
+  have hl := len_chars s hs
+  unfold find
+  split
+  · simp [Res.isPanic]
+  · split
+    · simp [Res.isPanic]
+    · rename_i k _
+      by_cases hk : k ≤ s.buf.length
+      · obtain ⟨r, h⟩ := findFrom_ok s n hs k hk
+        rw [h]; simp [Res.isPanic]
+      · unfold findFrom
+        rw [hl, if_pos (by omega)]; simp [Res.isPanic]
+
+theorem rfind_no_panic (s n : FS) (hs : s.wf) (e : Option Int) : ¬ (rfind s n e).isPanic := by
+  unfold rfind
+  split
+  · simp [Res.isPanic]
+  · split
+    · simp [Res.isPanic]
+    · rename_i k _
+      obtain ⟨r, h⟩ := rfindTo_ok s n hs k
+      rw [h]; simp [Res.isPanic]
+
+theorem substring_no_panic (s : FS) (hs : s.wf) (a b : Int) : ¬ (FStr.substring s a b).isPanic := by
+  have hl := len_chars s hs
+  unfold FStr.substring
+  rw [hl]
+  split
+  · simp [Res.isPanic]
+  · rename_i st _
+    simp only
+    split
+    · simp [Res.isPanic]
+    · rename_i e _
+      split
+      · simp [Res.isPanic]
+      · rename_i hc
+        split
+        · simp [Res.isPanic]
+        · obtain ⟨r, h1, _, _⟩ := substring_spec s hs st (some e) (by omega) (by intro b' hb; cases hb; omega)
+          rw [h1]; simp [Res.isPanic]
+
+
 end XrayModel.FStr
